@@ -365,6 +365,28 @@ pub fn apply<const N: usize>(
                 m(|| drop(it));
             }
         },
+        IntoIterClone(s) => {
+            let b: Cb<N> = *sut.b.take().unwrap();
+            let mut it = m(|| b.into_iter());
+            run_script(&mut it, s, tr, |e: E| {
+                let t = tag_of(e.0);
+                hold.elems.push(e);
+                t
+            });
+            let c = m(|| it.clone());
+            let mut got = vec![];
+            for e in c {
+                got.push(tag_of(e.0));
+                hold.elems.push(e);
+            }
+            tr.push(Obs::Tags(got));
+            let mut got = vec![];
+            for e in it {
+                got.push(tag_of(e.0));
+                hold.elems.push(e);
+            }
+            tr.push(Obs::Tags(got));
+        }
         DropBuf => {
             let b = sut.b.take().unwrap();
             m(|| drop(b));
